@@ -108,6 +108,40 @@ class _KF_C07_1:
 
 
 # ---------------------------------------------------------------------------------------------------------
+# KF-C10-1: same root as KF-C01-1 (add_bundle() leaves the identifier of a stand-alone bundle a name of the bundle's own scope), seen
+# by a reader written from the PROV-JSON specification: the key of the document-level "bundle" object is then printed with a prefix
+# that only the bundle's own "prefix" map declares (or that the document's map binds to another URI).
+# ---------------------------------------------------------------------------------------------------------
+@finding("KF-C10-1", ["C10"])
+class _KF_C10_1:
+    @staticmethod
+    def trigger(case):
+        return case.get("fmt") == "json" and any(op[0] == "attach" for op in case.get("ops", []))
+
+    @staticmethod
+    def neutralise(case):
+        # every stand-alone bundle becomes a bundle created by the document (doc.bundle(id)): same records, same declarations,
+        # but the identifier is resolved -- and so declared -- in the document's scope
+        ops, attach = [], {op[1]: op for op in case["ops"] if op[0] == "attach"}
+        n = 0
+        for op in case["ops"]:
+            if op[0] == "attach":
+                continue
+            if op[0] == "sbundle":
+                ident = op[2] if op[2] is not None else (attach.get(op[1]) or [None, None, None])[2]
+                if ident is None:
+                    return None
+                ops.append(["bundle", op[1], ident])
+                for p, u in (op[3] if len(op) > 3 and op[3] else []):
+                    ops.append(["ns", op[1], p, u])
+                n += 1
+            else:
+                ops.append(op)
+        case["ops"] = ops
+        return case if n else None
+
+
+# ---------------------------------------------------------------------------------------------------------
 # KF-C01-1: a bundle's identifier is a name in the *bundle's* scope for the library (add_bundle() resolves it there, PROV-XML
 # carries it on the element that holds the bundle's own declarations) but PROV-JSON writes it as a key of the document-level
 # "bundle" object.  When a stand-alone bundle that binds a prefix differently from the document is attached with add_bundle(),
